@@ -156,7 +156,73 @@ func sEq(a, b Term) Term {
 	return "(= " + a + " " + b + ")"
 }
 
-func sSel(a, i Term) Term      { return "(select " + a + " " + i + ")" }
+// sSel simplifies select-of-store on syntactically equal (or distinct literal) indices.
+func sSel(a, i Term) Term {
+	for strings.HasPrefix(a, "(store ") {
+		args := sexprArgs(a)
+		if len(args) != 4 {
+			break
+		}
+		if args[2] == i {
+			return args[3]
+		}
+		if _, ok1 := isBigConst(args[2]); ok1 {
+			if _, ok2 := isBigConst(i); ok2 {
+				a = args[1]
+				continue
+			}
+		}
+		break
+	}
+	return "(select " + a + " " + i + ")"
+}
+
+// sexprArgs splits "(f a b c)" into [f a b c] at the top level.
+func sexprArgs(t string) []string {
+	if len(t) < 2 || t[0] != '(' || t[len(t)-1] != ')' {
+		return nil
+	}
+	body := t[1 : len(t)-1]
+	var out []string
+	d := 0
+	start := -1
+	inq := false
+	for k := 0; k < len(body); k++ {
+		c := body[k]
+		if c == '|' {
+			inq = !inq
+			if start < 0 {
+				start = k
+			}
+			continue
+		}
+		if inq {
+			continue
+		}
+		switch c {
+		case '(':
+			if d == 0 && start < 0 {
+				start = k
+			}
+			d++
+		case ')':
+			d--
+		case ' ':
+			if d == 0 && start >= 0 {
+				out = append(out, body[start:k])
+				start = -1
+			}
+		default:
+			if start < 0 {
+				start = k
+			}
+		}
+	}
+	if start >= 0 {
+		out = append(out, body[start:])
+	}
+	return out
+}
 func sStore(a, i, v Term) Term { return "(store " + a + " " + i + " " + v + ")" }
 
 // quote a symbol
